@@ -514,6 +514,10 @@ pub enum Step {
     /// a ladder on one tip: two strands, one of which merges with the other after every step, so
     /// that `n` commands of the plain strand are reachable along two paths (convergence points)
     Ladder(u16, u16, Body),
+    /// `n` sibling children of one tip (many heads)
+    Fan(u16, u16, Body),
+    /// a comb on one tip: a trunk of `n` commands, each with one leaf child (n + 1 heads)
+    Comb(u16, u16, Body),
 }
 
 #[derive(Clone, Copy, Debug, Default)]
@@ -663,6 +667,32 @@ impl World {
                     plain = step(self, plain, 2 * k + 3);
                 }
             }
+            Step::Fan(at, n, b) | Step::Comb(at, n, b) => {
+                let comb = matches!(s, Step::Comb(..));
+                let mut parent = tips[vcommon::idx(*at, tips.len())];
+                let mut bb = b.clone();
+                bb.poison = false;
+                if bb.prio >= 200 {
+                    bb.prio = 0;
+                }
+                for k in 0..(*n as usize) {
+                    for leaf in [false, true] {
+                        if !comb && !leaf {
+                            continue;
+                        }
+                        let mut x = bb.clone();
+                        // generated id order and priorities vary along the structure
+                        x.id_hi = bb.id_hi.wrapping_add((2 * k as u16 + u16::from(leaf)).wrapping_mul(24593)) ^ (u16::from(bb.guard) << 7);
+                        x.prio = bb.prio.wrapping_add((k as u8).wrapping_mul(5).wrapping_add(u8::from(leaf) * 2)) % 3;
+                        let payload = self.body_payload(parent, &x, opts);
+                        let id = make_id(x.id_hi, self.len());
+                        let c = self.push(id, Kind::Basic(PRIOS[x.prio as usize % PRIOS.len()]), vec![parent], payload);
+                        if comb && !leaf {
+                            parent = c;
+                        }
+                    }
+                }
+            }
             Step::Merge(a, b, any) => {
                 let pool = if *any { &honest } else { &tips };
                 if pool.len() < 2 {
@@ -729,6 +759,8 @@ pub mod strategies {
             3 => (any::<u16>(), any::<u16>(), prop::bool::weighted(0.25)).prop_map(|(a, b, c)| Step::Merge(a, b, c)),
             run_weight => (any::<u16>(), 2u8..40, body(0)).prop_map(|(a, n, b)| Step::Run(a, n, b)),
             (run_weight / 3) => (any::<u16>(), 1u16..30, body(0)).prop_map(|(a, n, b)| Step::Ladder(a, n, b)),
+            (run_weight / 3) => (any::<u16>(), 2u16..16, body(0)).prop_map(|(a, n, b)| Step::Fan(a, n, b)),
+            (run_weight / 4) => (any::<u16>(), 2u16..20, body(0)).prop_map(|(a, n, b)| Step::Comb(a, n, b)),
         ]
     }
 
@@ -742,6 +774,8 @@ pub mod strategies {
         prop::collection::vec(
             prop_oneof![
                 4 => (any::<u16>(), 120u16..420, body(0)).prop_map(|(a, n, b)| Step::Ladder(a, n, b)),
+                2 => (any::<u16>(), 300u16..1100, body(0)).prop_map(|(a, n, b)| Step::Comb(a, n, b)),
+                1 => (any::<u16>(), 11u16..40, body(0)).prop_map(|(a, n, b)| Step::Fan(a, n, b)),
                 2 => (any::<u16>(), body(0)).prop_map(|(a, b)| Step::Branch(a, b)),
                 1 => (any::<u16>(), 2u8..40, body(0)).prop_map(|(a, n, b)| Step::Run(a, n, b)),
                 1 => (any::<u16>(), any::<u16>(), prop::bool::weighted(0.25)).prop_map(|(a, b, c)| Step::Merge(a, b, c)),
